@@ -18,6 +18,9 @@ typedef struct {
 	ZSTD_CStream *cstrm;
 	ZSTD_DStream *dstrm;
 	bool compress;
+
+	/* the current frame is not completely flushed or decoded yet */
+	bool pending;
 } xfrm_zstd_t;
 
 static const ZSTD_EndDirective zstd_action[] = {
@@ -39,7 +42,9 @@ static int process_data(xfrm_stream_t *stream, const void *in,
 	if (flush_mode < 0 || flush_mode >= XFRM_STREAM_FLUSH_COUNT)
 		flush_mode = XFRM_STREAM_FLUSH_NONE;
 
-	while (in_size > 0 && out_size > 0) {
+	while ((in_size > 0 ||
+		(zstd->pending && flush_mode == XFRM_STREAM_FLUSH_FULL)) &&
+	       out_size > 0) {
 		memset(&in_desc, 0, sizeof(in_desc));
 		in_desc.src = in;
 		in_desc.size = in_size;
@@ -60,6 +65,14 @@ static int process_data(xfrm_stream_t *stream, const void *in,
 		if (ZSTD_isError(ret))
 			return XFRM_STREAM_ERROR;
 
+		/* no more input will follow, but the frame is incomplete */
+		if (in_size == 0 && in_desc.pos == 0 && out_desc.pos == 0)
+			return XFRM_STREAM_ERROR;
+
+		zstd->pending = (ret != 0) ||
+			(zstd->compress &&
+			 flush_mode != XFRM_STREAM_FLUSH_FULL);
+
 		in = (const char *)in + in_desc.pos;
 		in_size -= in_desc.pos;
 		*in_read += in_desc.pos;
@@ -70,7 +83,7 @@ static int process_data(xfrm_stream_t *stream, const void *in,
 	}
 
 	if (flush_mode != XFRM_STREAM_FLUSH_NONE) {
-		if (in_size == 0)
+		if (in_size == 0 && !zstd->pending)
 			return XFRM_STREAM_END;
 	}
 
